@@ -384,6 +384,98 @@ def check_lazy_import(case, ev=None, scratch=None):
             scratch.clean()
 
 
+# ---- program shapes whose analysis meets unordered collections / names that also exist in the environment -----------------
+ENV_SHAPES = {
+    # one path reached twice with different call contexts (two candidate signatures for one path)
+    "twice": ("""import dds
+
+
+def g(x):
+    return ('g', x)
+
+
+def helper(x):
+    return dds.keep('/es/p', g, x)
+
+
+def second(x):
+    return dds.keep('/es/q', g, x)
+
+
+def f():
+    a = helper(1)
+    b = helper(2)
+    c = second(3)
+    d = helper(4)
+    return ('f', a, b, c, d)
+""", []),
+    # a parameter / local re-used as the target of a comprehension and read again afterwards
+    "comp_reuse": ("""import dds
+
+
+def report(batch, rows):
+    lines = [str(batch) for batch in batch]
+    total = sum(rows for rows in rows)
+    return (len(batch), lines, total, len(rows))
+
+
+def f():
+    return dds.keep('/es/p', report, [1, 2], [3])
+""", ["batch", "rows", "lines", "total"]),
+    # locals bound by for / with / nested comprehension
+    "loop_names": ("""import dds
+
+
+def table(items):
+    out = {}
+    for items_i, item in enumerate(items):
+        out[item] = [cell for cell in (items_i, item)]
+    return sorted(out.items()), item, items_i
+
+
+def f():
+    return dds.keep('/es/p', table, ['a', 'b'])
+""", ["items", "item", "items_i", "cell", "out"]),
+}
+
+
+def env_shape_strategy():
+    from hypothesis import strategies as st
+
+    return st.fixed_dictionaries({"envshape": st.sampled_from(sorted(ENV_SHAPES)), "seeds": st.lists(st.sampled_from([0, 1, 2, 3, 5, 7, 11, 4242]), min_size=3, max_size=4, unique=True),
+                                  "store": st.sampled_from(["memory", "local"])})
+
+
+def check_env_shape(case, ev=None, scratch=None):
+    """Fresh interpreters with different hash seeds, started from a plain working directory and from one that holds directories
+    named like the local variables of the evaluated functions, must assign the same signatures."""
+    own = scratch is None
+    scratch = scratch or common.Scratch("vf-c03")
+    try:
+        root, plain, hostile = scratch.sub(), scratch.sub(), scratch.sub()
+        src, names = ENV_SHAPES[case["envshape"]]
+        for rel, content in {"pk/__init__.py": "", "pk/m0.py": src}.items():
+            pth = os.path.join(root, rel)
+            os.makedirs(os.path.dirname(pth), exist_ok=True)
+            open(pth, "w").write(content)
+        for n in names:
+            os.makedirs(os.path.join(hostile, n))
+        sigs = {}
+        for i, hs in enumerate(case["seeds"]):
+            cwd = hostile if (names and i % 2 == 1) else plain
+            store = {"kind": case["store"], "dir": scratch.sub()}
+            res = oneshot(root, "pk", store, [{"module": "pk.m0", "func": "f", "style": "eval"}], hs, cwd=cwd)[0]
+            what = f"shape {case['envshape']}, PYTHONHASHSEED={hs}, cwd {'with directories named like the locals' if cwd is hostile else 'plain'}"
+            sigs[what] = tuple(sorted(sig_map(res, what, case).items()))
+        if len(set(sigs.values())) != 1:
+            raise Violation("signatures differ between fresh interpreters: " + "; ".join(f"{k}: { {p: s[:10] for p, s in v} }" for k, v in sigs.items()), case)
+        if ev is not None:
+            ev.case(case, True, features=["env-shape:" + case["envshape"]])
+    finally:
+        if own:
+            scratch.clean()
+
+
 def shard(idx, n, tier, seed, count):
     ev = Ev()
     scratch = common.Scratch("vf-c03")
@@ -397,6 +489,8 @@ def shard(idx, n, tier, seed, count):
 
             lz = st.fixed_dictionaries({"lazy": st.just(True), "n": st.integers(0, 3), "lz": st.integers(0, 5), "ver": st.integers(0, 2), "evals": st.integers(2, 3)})
             v = common.hyp_drive(lz, lambda c: check_lazy_import(c, ev, scratch), seed * 1000 + 380 + idx, 3, ev)
+        if v is None and idx >= 8:
+            v = common.hyp_drive(env_shape_strategy(), lambda c: check_env_shape(c, ev, scratch), seed * 1000 + 390 + idx, 2 if tier == "quick" else 8, ev)
     finally:
         scratch.clean()
     return ev, v
@@ -414,6 +508,8 @@ def run(tier, seed, scale=1.0):
 def replay(case):
     if case.get("lazy"):
         check_lazy_import(case)
+    elif "envshape" in case:
+        check_env_shape(case)
     elif case.get("lam"):
         check_lambda(case)
     elif "value_hash" in case:
